@@ -41,9 +41,12 @@ class _FixedDateTimeZone(DateTimeZone):
     def __make_id(self, offset: Offset) -> str:
         from .. import Offset
 
+        from ..text import OffsetPattern
+
         if offset == Offset.zero:
             return self._UTC_ID
-        return self._UTC_ID + str(offset)
+        # The ID must not depend on the current culture (str(offset) uses it: "UTC-01.00.01" under fi-FI).
+        return self._UTC_ID + OffsetPattern.general_invariant.format(offset)
 
     @classmethod
     def _get_fixed_zone_or_null(cls, id_: str) -> DateTimeZone | None:
